@@ -70,7 +70,22 @@ func (p Package) uniqueName(lvl int) string {
 		name = "_" + name
 	}
 
+	// The generated methods would hide a package with such a qualifier,
+	// use one more path component (testifymock) or a suffix.
+	if reservedQualifier(name) {
+		if lvl+1 < len(pp) {
+			return p.uniqueName(lvl + 1)
+		}
+		name += "pkg"
+	}
+
 	return name
+}
+
+// reservedQualifier reports whether name is used by every generated method
+// itself: mock is the receiver, callInfo the call record.
+func reservedQualifier(name string) bool {
+	return name == "mock" || name == "callInfo"
 }
 
 // depth returns the number of path components which can contribute to
